@@ -302,7 +302,10 @@ func parseErrPositions(err error) []errPos {
 // c09Check returns (C09 violation, C16 violation, harness error).
 func c09Check(in c09Input) (string, string, string, *gen.Rendered) {
 	r := in.render()
-	g := repoGrammar()
+	// The injector is validated against the grammar as pinned when it was written: the catalogue of rule
+	// violations is defined by the property, not by whatever the repository's .g4 says today (a seeded change
+	// edited the .g4 and the Go parser together so that "a or ([user])" became derivable).
+	g := g4.PinnedGrammar()
 	derivable := g4.DerivableLenient(g, r.Text)
 	if in.Inj.Grammar && derivable {
 		return "", "", fmt.Sprintf("injector %s produced a document the grammar derives:\n%q", in.Inj.Kind, r.Text), r
